@@ -25,6 +25,7 @@ func init() {
 		wireHostile(c, n)
 		wireStall(c)
 		protoHostile(c)
+		subShortBodies(c)
 		runLimitConfig(c)
 	}
 }
